@@ -161,7 +161,7 @@ func hashKVs(h interface{ Write([]byte) (int, error) }, kvs []vstore.KV) {
 // modelKey digests every model fact (also those invisible in the implementation).
 func modelKey(m *Model) [32]byte {
 	h := sha256.New()
-	fmt.Fprintf(h, "iv%d,%v,%v first%d latest%d cur%d|", m.IV, m.IVSet, m.ivArm, m.First, m.Latest, m.Cur)
+	fmt.Fprintf(h, "iv%d,%v,%v first%d latest%d cur%d gen%d|", m.IV, m.IVSet, m.ivArm, m.First, m.Latest, m.Cur, m.Genesis)
 	for _, v := range m.Versions() {
 		fmt.Fprintf(h, "v%d:%x;", v, ref.Hash(m.Roots[v], v))
 		for _, p := range m.pairs(m.Conts[v]) {
